@@ -142,7 +142,7 @@ func containsPackage(config *core.Configuration, dir string) bool {
 			if info.IsDir() {
 				dirQueue = append(dirQueue, filepath.Join(dir, info.Name()))
 			}
-			if config.IsABuildFile(info.Name()) {
+			if !info.IsDir() && config.IsABuildFile(info.Name()) {
 				return true
 			}
 		}
